@@ -35,10 +35,14 @@ pub fn critical(ev: Ev, triples: bool) -> Vec<String> {
     let mut out = Vec::new();
     let names: Vec<(&str, Func)> = func_names(ev).to_vec();
     let short: Vec<&String> = crit.iter().filter(|c| c.len() <= 9 || c.contains("e)") || c.contains("367879441171442321595")).collect();
+    let near = if ev.has_point() { neighbourhoods() } else { Vec::new() };
     for (name, f) in &names {
         match f.arity() {
             Arity::Fixed(1) => {
                 for c in &crit {
+                    out.push(format!("{}({})", name, c));
+                }
+                for c in &near {
                     out.push(format!("{}({})", name, c));
                 }
             }
@@ -93,3 +97,41 @@ pub fn critical(ev: Ev, triples: bool) -> Vec<String> {
     out
 }
 
+
+/// decimal literals c +- m * 10^-j (m = 1, 3, 7; j = 1..20) around the centres at which some one-argument
+/// function changes regime: -1/e (Lambert W), -1, 0, 0.5, 1, 2 — exact decimal arithmetic on digit strings
+pub fn neighbourhoods() -> Vec<String> {
+    // centres as (sign, integer of 28 fraction digits)
+    let scale: u128 = 10u128.pow(28);
+    let centres: [(bool, u128); 6] = [
+        (true, 3678794411714423215955237702),
+        (true, scale),
+        (false, 0),
+        (false, scale / 2),
+        (false, scale),
+        (false, 2 * scale),
+    ];
+    let mut out = Vec::new();
+    for (neg, c) in centres {
+        let c = c as i128 * if neg { -1 } else { 1 };
+        for j in 1..=20u32 {
+            for m in [1i128, 3, 7] {
+                for sgn in [-1i128, 1] {
+                    let v = c + sgn * m * 10i128.pow(28 - j);
+                    let a = v.unsigned_abs();
+                    let mut t = format!("{}.{:028}", a / scale, a % scale);
+                    while t.ends_with('0') {
+                        t.pop();
+                    }
+                    if t.ends_with('.') {
+                        t.pop();
+                    }
+                    out.push(if v < 0 { format!("(-{})", t) } else { t });
+                }
+            }
+        }
+    }
+    out.sort();
+    out.dedup();
+    out
+}
